@@ -6,13 +6,19 @@
 (*  large   |req| in {999,1000,1001} (unbatched / batched switch of extract_with_config), 1500, 5001   *)
 (*          (adaptive batch size), T up to 32, B in {1,7,10,|req|,|req|+1}, on the 1300-file archive   *)
 (*          with multi-sector and encrypted members;                                                  *)
+(*  spell   every single-archive interface x spelling class of the names x duplicates x missing                           *)
+(*  multi2  both multi-archive helpers x repeated archive / repeated name x missing x spelling                            *)
 (*  gen     one path re-used for 3 generations of an archive; all single-archive interfaces before / after each replacement *)
 (*  chain   PatchChain::from_archives_parallel / add_archives_parallel = sequential add_archive (order, ties, winner) *)
 (*  multi   parallel::extract_from_multiple_archives over 1..5 archives, one of them lacking the file. *)
 EXTENDS Integers, Sequences, SequencesExt, FiniteSets, Json, IOUtils, TLC
 
 Thorough == IOEnv.VERIF_TIER = "thorough"
-Cfg(i, a, t, b, n, s, m, d) == [kind |-> "cfg", iface |-> i, arch |-> a, t |-> t, b |-> b, n |-> n, skip |-> s, miss |-> m, dup |-> d]
+CfgS(i, a, t, b, n, s, m, d, sp) == [kind |-> "cfg", iface |-> i, arch |-> a, t |-> t, b |-> b, n |-> n, skip |-> s, miss |-> m, dup |-> d, spell |-> sp]
+Cfg(i, a, t, b, n, s, m, d) == CfgS(i, a, t, b, n, s, m, d, "listed")
+\* spelling class of the requested names: SeqRead is defined on the MPQ name hash (case and separator folded), not on the
+\* listing: as listed | UPPER | lower | case-flipped | forward slashes | the (listfile) itself | a file no listfile line names
+Spellings == {"upper", "lower", "mixed", "fwd", "special", "unlisted"}
 Misses == {"none", "first", "middle", "last", "all"}
 SmallN(b) == {0, 1, b - 1, b, b + 1, 2 * b, 2 * b + 1} \ {-1}
 Ts == IF Thorough THEN {1, 2, 3, 8, 32} ELSE {1, 2, 3, 8}
@@ -43,6 +49,16 @@ Big == { Cfg("with_config", "L", tb[1], tb[2], n, s, m, "none") : tb \in BigTB, 
             n \in {1001, 1500}, m \in {"none", "middle"} }
 Multi == { Cfg(i, "M", t, 0, n, FALSE, m, "none") : i \in {"multi", "multi_many"}, t \in {1, 3, 8}, n \in 0..5, m \in {"none", "first", "middle", "last"} }
 MultiSel == {c \in Multi : c.miss # "none" => c.n > 0}
+\* every single-archive interface x spelling class x duplicates x a missing name (T = 1 too: a single-thread shortcut is a path)
+Spelled == { CfgS(i, a, t, 2, n, s, m, d, sp) : i \in {"with_config", "files_parallel", "files_batched", "process"}, a \in {"S", "E"},
+             t \in {1, 3}, n \in {1, 6}, s \in BOOLEAN, m \in {"none", "last"}, d \in {"none", "far"}, sp \in Spellings }
+SpelledSel == {c \in Spelled : /\ (c.iface # "with_config" => ~c.skip) /\ (c.dup = "far" => c.n >= 2) /\ (c.miss = "last" => c.n >= 2)
+                               /\ (Thorough \/ c.arch = "S" \/ (c.t = 3 /\ c.dup = "none" /\ c.miss = "none"))}
+\* both multi-archive helpers with the full request classes: the same archive twice / the same NAME repeated (dup), an archive
+\* without the file / a name no archive has (miss), spelling; |out| = |req| always (multi_many: b names per archive)
+MultiReq == { CfgS(i, "M", t, b, n, FALSE, m, d, sp) : i \in {"multi", "multi_many"}, t \in {1, 3}, b \in 1..3, n \in {1, 2, 4},
+              m \in {"none", "middle", "all"}, d \in {"none", "adj"}, sp \in {"listed", "upper", "mixed"} }
+MultiReqSel == {c \in MultiReq : /\ (c.iface = "multi" => (c.b = 1 /\ c.miss # "all")) /\ (c.dup = "adj" /\ c.iface = "multi" => c.n >= 2)}
 \* PatchChain::from_archives_parallel / add_archives_parallel against sequential add_archive: b = priority pattern
 \* (0 all equal .. 4 negative + ties), n archives, miss = "middle": one path does not exist
 ChainPar == { Cfg(i, "M", t, pat, n, FALSE, m, "none") : i \in {"chain_par", "chain_addpar"}, t \in {1, 3, 8}, pat \in 0..4,
@@ -55,7 +71,7 @@ GenCfg == { Cfg(i, "G", t, b, n, s, m, "none") : i \in {"with_config", "files_pa
             t \in {1, 3, 8}, b \in {1, 3}, n \in {1, 8, 15}, s \in BOOLEAN, m \in {"none", "gone"} }
 GenSel == {c \in GenCfg : /\ (c.iface # "with_config" => ~c.skip) /\ (c.iface \notin {"files_batched", "matching"} => c.b = 1)
                            /\ (c.iface = "matching" => (c.n = 8 /\ c.miss = "none"))}
-Cases == SetToSeq(GenSel) \o SetToSeq(ChainSel) \o SetToSeq(SmallSel) \o SetToSeq(OthersSel) \o SetToSeq(Matching) \o SetToSeq(Big) \o SetToSeq(MultiSel)
+Cases == SetToSeq(GenSel) \o SetToSeq(SpelledSel) \o SetToSeq(MultiReqSel) \o SetToSeq(ChainSel) \o SetToSeq(SmallSel) \o SetToSeq(OthersSel) \o SetToSeq(Matching) \o SetToSeq(Big) \o SetToSeq(MultiSel)
 ASSUME ndJsonSerialize(IOEnv.CASES, Cases)
 ASSUME PrintT(<<"GENERATED", Len(Cases), Cardinality(SmallSel), Cardinality(OthersSel), Cardinality(Big)>>)
 =============================================================================
